@@ -22,7 +22,6 @@ VARIANTS = {
 
 
 def run():
-    mod = importlib.import_module("rules.c14")
     out = []
     for name, (rel, old, new) in VARIANTS.items():
         src = open(os.path.join(FM.repo_root(), rel)).read()
@@ -33,16 +32,13 @@ def run():
         try:
             open(os.path.join(tree, rel), "w").write(src.replace(old, new, 1))
             try:
-                F = FM.load("default", repo=tree)
+                bad = mutants.run_on("C14", tree)
             except Exception as e:
                 out.append((name, None, "does not build: %s" % str(e)[:120]))
                 continue
         finally:
             shutil.rmtree(tree, ignore_errors=True)
-        R = core.Report("C14")
-        mod.run(F, R, "quick")
-        bad = [o for o in R.obls if not o.ok]
-        out.append((name, len(bad), "; ".join("%s: %s" % (o.rule, o.detail[:60]) for o in bad[:2])))
+        out.append((name, len(bad), "; ".join("%s: %s" % (r_, d_[:60]) for r_, k_, d_ in bad[:2])))
     return out
 
 
